@@ -36,6 +36,7 @@ def make_param(E, P, name, kind):
             P.assume(v.t != NULL)
             E.assume_allocated(P, v.t)
             P.assume(z3.Select(E.alloc_arr(P), v.t))
+            P.assume(E.type_is(P, v.t, kind[4:]))
             return v
         if kind.startswith("ref?:"):
             v = E.sym(name, "ref:" + kind[5:])
@@ -45,6 +46,7 @@ def make_param(E, P, name, kind):
             v = E.sym(name, kind)
             P.assume(v.t != NULL)
             P.assume(z3.Select(E.alloc_arr(P), v.t))
+            P.assume(E.type_is(P, v.t, "list"))
             return v
         if kind == "none":
             return NONE
@@ -134,7 +136,7 @@ def verify_function(repo, qual, con, types, contracts, specfuns=None, timeout_ms
                 if o[0] not in ("ret", "next"):
                     raise Unsupported("outcome %r at function end" % (o,))
                 fr.returns += 1
-                und = {w for w in p.written if not w.startswith("py") and w != "$alloc"} - allowed
+                und = {w for w in p.written if not w.startswith("py") and w not in ("$alloc", "$type")} - allowed
                 if und:
                     raise SpecError("%s writes heap fields %s not in its modifies clause" % (qual, sorted(und)))
                 res = o[1] if o[0] == "ret" else NONE
@@ -159,11 +161,26 @@ def verify_function(repo, qual, con, types, contracts, specfuns=None, timeout_ms
         fr.reason = "engine recursion limit"
     except z3.Z3Exception as ex:
         fr.status = "spec-error"
-        fr.reason = "z3: %s\n%s" % (ex, traceback.format_exc()[-800:])
+        fr.reason = "z3: %s\n%s" % (ex, traceback.format_exc()[-3000:])
     fr.assumptions = sorted(E.used_assumptions)
+    # fingerprint of everything that was executed symbolically: the function itself and every inlined callee
+    try:
+        import hashlib
+        E.touched.add(ast.dump(node))
+        fr.fingerprint = hashlib.sha256("\n".join(sorted(E.touched)).encode()).hexdigest()[:16]
+    except Exception:
+        pass
     if fr.status == "ok":
+        import os, sys
+        trace = os.environ.get("PYVC_TRACE")
+        if trace:
+            sys.stderr.write("[pyvc] %s: symbolic execution %.1fs, %d obligations, %d feasibility checks\n"
+                             % (qual, time.time() - t0, len(E.obligations), E.feas_checks))
         for ob in E.obligations:
-            fr.obligations.append(discharge(ob, timeout_ms))
+            r = discharge(ob, timeout_ms)
+            if trace and (r["time"] > 0.5 or r["verdict"] != "discharged"):
+                sys.stderr.write("[pyvc]   %s %s %.2fs\n" % (r["name"], r["verdict"], r["time"]))
+            fr.obligations.append(r)
     fr.wall = time.time() - t0
     return fr
 
